@@ -40,7 +40,8 @@ def value_tokens(draw, allow_in_out=True):
 
 @st.composite
 def path_src(draw, prefix):
-    tail = draw(st.sampled_from([b'', b'.o', b'/d', b'/./e', b'/../f', b'//g', b'$ h', b'$:i', b'$x', b'${y}k', b'$$', b'/']))
+    tail = draw(st.sampled_from([b'', b'.o', b'/d', b'/./e', b'/../f', b'//g', b'$ h', b'$:i', b'$x', b'${y}k', b'$$', b'/',
+                                  b'/.', b'/..', b'/sub/..', b'/../..', b'/./.', b'/..x', b'/...', b'/..x/y', b'/.../z']))
     return prefix + tail
 
 
